@@ -33,6 +33,19 @@ def run(ck):
     for m in res["mismatches"] or []:
         key = "C12:%s:%s" % (m["kind"], " ".join(m["seq"].split()[:m["step"] + 1]))
         ck.violation(key, "sequence [%s], request %d: %s: specification requires %s, server gives %s" % (m["seq"], m["step"] + 1, m["kind"], m["want"], m["got"]), m)
+    # TEARDOWN of a multicast player releases its membership of the shared proxy (the session automaton's stream has no
+    # multicast source; this leg publishes one)
+    trm = os.path.join(ck.tmp, "mcast.ndjson")
+    ck.run_driver("./transport", "^TestMulticast$", {"VERIF_OUT": trm}, timeout=600)
+    nm = sum(1 for _ in open(trm))
+    rtm = ck.tlc("fanout", "TransportTrace", "McastTrace.cfg", workers=1, env={"VERIF_TRACE": trm}, label="acceptance of the multicast-player leg")
+    if nm < 6 or rtm.distinct != nm + 1:
+        raise Infra("multicast leg: %d records, %d consumed" % (nm, rtm.distinct - 1))
+    seen = set()
+    for b in rtm.printed("@BAD"):
+        if b["why"].startswith("C12:") and b["why"] not in seen:
+            seen.add(b["why"])
+            ck.violation(b["why"], "%s: %s" % (b["why"], b["ev"]), b)
     ck.sample({"sequence": [(s["req"], s["exp"]) for s in sims[0]]})
     ck.sample({"sequence": [(s["req"], s["exp"]) for s in edges[len(edges) // 2]]})
     ck.assumptions += ["answer classes: ok (2xx), 455, refuse (any status >= 400; 455 also accepted), any (the statement does not decide: after a refused SETUP, DESCRIBE after ANNOUNCE)",
@@ -44,5 +57,5 @@ META = {
     "text": "RtspSession.tla is the session automaton of the statement (20 abstract states x 19 request kinds). TLC produces the complete edge cover (266 (state, request) pairs, each with a shortest prefix), all sequences up to length 3 (6.5k; quick replays a seeded 1500) and simulated sequences of length 12, each request annotated with the required answer class and data-plane obligations; every sequence is replayed on a real TCP connection to the in-process server while a live stream is being published.",
     "note": "Trusted: TLC, RtspSession.tla as transcription of the statement, the independent strict RTSP/interleaved parser of harness/vclient. ws-rtsp and WSP transports ride on the same session code; they are exercised by C13/C11 drivers.",
     "technique": "TLA+ automaton of the RTSP session; TLC edge cover + exhaustive short sequences + simulation replayed on real connections with per-request comparison",
-    "specs": ["rtsp"],
+    "specs": ["rtsp", "fanout"],
 }
